@@ -32,6 +32,15 @@ def addr(r):
     return f'{n} <{n.lower()}@{r.choice(HOSTS)}>'
 
 
+def clock(r):
+    """time of day and zone: RFC 3501 6.4.4 compares the date as written, "disregarding time and timezone", so neither
+    may move a message to another day — half of the draws sit within the zone offset of midnight"""
+    if r.random() < 0.4:
+        return r.choice(['10:00:00 +0000', '12:00:00 +0000'])
+    return r.choice(['00:10:00', '23:50:00', '00:00:00', '23:59:59', '05:30:00', '18:45:00']) + ' ' + \
+        r.choice(['+0000', '-0500', '+0900', '+1300', '-1100', '+0530', '-0030'])
+
+
 def gen_message(r, k):
     hdr = []
     fields = {}
@@ -50,14 +59,14 @@ def gen_message(r, k):
     sday = None
     if r.random() < 0.8:
         sday = r.randint(1, 27)
-        add('Date', f'{sday:02d} Feb 2020 12:00:00 +0000')
+        add('Date', f'{sday:02d} Feb 2020 {clock(r)}')
     if r.random() < 0.4:
         add('X-Tag', r.choice(WORDS))
     body = ' '.join(r.choice(WORDS + ['alice', 'zebra']) for _ in range(r.randint(0, 8))) + '\r\n' + 'pad ' * r.randint(0, 30 * (k % 3))
     raw = ('\r\n'.join(hdr) + '\r\n\r\n' + body + '\r\n').encode('ascii')
     flags = sorted(set(r.sample([0, 1, 2, 3, 4, 5, 6], r.randint(0, 3))))
     iday = r.randint(1, 27)
-    return dict(raw=raw, fields=fields, body=body, flags=flags, iday=iday, sday=sday, header_text='\r\n'.join(hdr))
+    return dict(raw=raw, fields=fields, body=body, flags=flags, iday=iday, iclock=clock(r), sday=sday, header_text='\r\n'.join(hdr))
 
 
 # ---------------------------------------------------------------- key trees
@@ -265,7 +274,7 @@ async def mailbox_case(part, r, nqueries, backend_kind='dict'):
             await a.send(b'a SELECT INBOX\r\n')       # claims \Recent of the first batch ...
             await a.send(b'a SELECT INBOX\r\n')       # ... and drops it with the selection (CLOSE would expunge)
         fl = l3.flag_list(m['flags'])
-        out = await a.send(b'a APPEND INBOX ' + fl + b' "%02d-Feb-2020 10:00:00 +0000" {%d+}\r\n' % (m['iday'], len(m['raw'])) + m['raw'] + b'\r\n')
+        out = await a.send(b'a APPEND INBOX ' + fl + b' "%02d-Feb-2020 %s" {%d+}\r\n' % (m['iday'], m['iclock'].encode(), len(m['raw'])) + m['raw'] + b'\r\n')
         m['uid'] = 101 + i
         m['seq'] = i + 1
         m['size'] = len(m['raw'])
@@ -288,7 +297,7 @@ async def mailbox_case(part, r, nqueries, backend_kind='dict'):
             line = b' '.join(key_wire(k) for k in ks)
             for uidmode in (False, True):
                 raw = await a.send((b'a UID SEARCH ' if uidmode else b'a SEARCH ') + line + b'\r\n')
-                case = dict(messages=[dict(uid=m['uid'], flags=m['flags'], iday=m['iday'], sday=m['sday'], size=m['size'], recent=m['recent'],
+                case = dict(messages=[dict(uid=m['uid'], flags=m['flags'], iday=m['iday'], iclock=m['iclock'], sday=m['sday'], size=m['size'], recent=m['recent'],
                                            raw=m['raw'].decode('ascii')) for m in view], query=line.decode('ascii'), uid=uidmode)
                 try:
                     resps = imapresp.parse(raw)
@@ -382,7 +391,7 @@ def worker(job):
 def run(ctx):
     ctx.rep.rule = RULE
     ctx.rep.assumptions = ['generated messages are plain ASCII with one address per header token, so that "contains" needs no charset or RFC 2047 decoding (those are the email package\'s business)',
-                           'all dates are at 10:00/12:00 +0000: time-zone edge cases of date comparison are not explored',
+                           'dates carry random times of day and zone offsets (half of them within the offset of midnight); the expected day is the date as written (RFC 3501 6.4.4)',
                            'string-matching keys are oracle bits of the Lean model; the bits come from the independent evaluator']
     nw = ctx.workers
     ctx.pmap(worker, [(ctx.seed * 1000 + 600 + k, ctx.budget(6, 120), ctx.budget(10, 20)) for k in range(nw)])
